@@ -81,10 +81,8 @@ def run(prog, chk):
     chk.ob("R1.client-handler-not-in-server-table", "_server_handler_table",
            vals is not None and not any("userauth_success" in v for v in vals), st.loc, "server handlers: %s" % vals)
     g2 = prog.cls("GssapiWithMicAuthHandler")
-    tab = None
-    for s in g2.node.body:
-        if isinstance(s, ast.Assign) and isinstance(s.value, ast.Dict) and "handler_table" in unparse(s.targets[0]):
-            tab = [unparse(v) for v in s.value.values]
+    from ._shared import gss_handler_table
+    tab = [txt for (q, kind, txt) in gss_handler_table(prog)]
     chk.ob("R1.client-handler-not-in-server-table", "GssapiWithMicAuthHandler", tab is not None and not any("userauth_success" in v for v in tab),
            g2.module.path, "gss handlers: %s" % tab)
 
